@@ -213,7 +213,7 @@ class ExprMixin:
             if self.term_mode:
                 raise Unsupported(f'None.{attr} in spec')
             self.raise_(AttributeError, f'None.{attr}')
-        if k.name in ('ReMatch', 'ReGroupDict'):
+        if k.name in ('ReMatch', 'ReGroupDict', 'PyDateTime'):
             from .engine import BoundSym
             return const(BoundSym(base, ('builtin', attr), None))
         if k.is_obj:
@@ -266,6 +266,8 @@ class ExprMixin:
             if is_and and not d:
                 return v if v.kind != BOOL else SV(BOOL, z3.BoolVal(False))
             if (not is_and) and d:
+                if v.kind.name == 'opt':
+                    v = self.force(v)      # truthy => not None: hand on the payload
                 return v if v.kind != BOOL else SV(BOOL, z3.BoolVal(True))
         return v
 
@@ -499,7 +501,9 @@ class ExprMixin:
         left = self.eval(e.left)
         result = None
         for i, (op, rhs) in enumerate(zip(e.ops, e.comparators)):
-            if isinstance(op, (ast.In, ast.NotIn)) and isinstance(rhs, (ast.List, ast.Tuple, ast.Set)) \
+            if isinstance(op, (ast.In, ast.NotIn, ast.Eq, ast.NotEq)) \
+                    and isinstance(rhs, (ast.List, ast.Tuple, ast.Set)) \
+                    and (isinstance(op, (ast.In, ast.NotIn)) or isinstance(rhs, ast.List)) \
                     and not any(isinstance(x, ast.Starred) for x in rhs.elts):
                 # membership in a literal: no heap object needed
                 right = self.make_tuple([self.eval(x) for x in rhs.elts])
@@ -608,6 +612,14 @@ class ExprMixin:
             return a.t == b.t
         if ka == CONST and kb == CONST:
             return z3.BoolVal(a.py == b.py)
+        if (ka.is_list and kb == PYTUPLE) or (kb.is_list and ka == PYTUPLE):
+            # list == [literal, ...]
+            lv, tv = (a, b) if ka.is_list else (b, a)
+            items = list(tv.py)
+            conj = [self.list_len(lv) == len(items)]
+            for i_, it in enumerate(items):
+                conj.append(self.equal(SV(lv.kind.elem, z3.Select(self.list_elems(lv), i_)), it))
+            return z3.And(*conj)
         if ka == PYTUPLE and kb == PYTUPLE:
             if len(a.py) != len(b.py):
                 return z3.BoolVal(False)
